@@ -388,6 +388,8 @@ impl<'a> AliasLexer<'a> {
         self.trim_whitespace();
 
         match self.get_numeric() {
+            // the parser parses the digits into a `Tone`
+            Some(num) if num.value.parse::<crate::syll::Tone>().is_err() => Err(AliasSyntaxError::ToneTooBig(num.position)),
             Some(num) => Ok(Some(AliasToken::new(tkn_kind, num.value, AliasPosition::new(self.kind, self.line, start, self.pos)))),
             _ => Err(AliasSyntaxError::ExpectedNumber(self.curr_char(), self.kind, self.line, self.pos))
 
